@@ -1,8 +1,11 @@
 (* C17 — AmpGen option files are read into the amplitudes and tables they state.
-   Model: Amp/Read.v starting from the transformed option file (list of lines); the AmpGen lexer/parser and
-   the fuzzy particle-name lookup are outside the model (front end partial; lookup is regenerated data). *)
-From Coq Require Import String List Bool ZArith QArith Arith.
-From DL Require Import Lib.Val Lib.Product Dec.Num Dec.Tables Amp.Syntax Amp.Read Amp.ReadProofs.
+   Model: Amp/Text.v (the option file as TEXT: line splitting, comments, scanner, line parser following data/ampgen.lark as
+   Lark's contextual lexer + LALR driver + AmpGenTransformer read it) and Amp/Read.v (from the transformed file on).
+   The fuzzy particle-name lookup is regenerated data.  PARTIAL: Amp/Text.v is a hand-written model of Lark on this grammar,
+   tied by comparing its reading of every text of a run with the tree Lark builds; words Lark's lexer would cut in two are
+   outside its domain. *)
+From Coq Require Import String List Bool ZArith QArith Arith Lia.
+From DL Require Import Lib.Val Lib.Product Dec.Num Dec.Tables Amp.Syntax Amp.Read Amp.ReadProofs Amp.Text Amp.TextProofs.
 Import ListNotations.
 Close Scope Q_scope.
 Open Scope string_scope.
@@ -62,3 +65,37 @@ Example C17_example :
   | _ => False
   end.
 Proof. vm_compute. split; reflexivity. Qed.
+
+(* ------------------------------------------------------------------ the text front end *)
+(* every well-formed option file (event type, complex decay lines with nested / tagged decays, constants, variables, the
+   coherent-sum option), written with any gap width between its columns, is read back as exactly that file ... *)
+Theorem C17_text_round_trip : forall g f, f <> [] -> Forall line_wf f -> parse_text (render_text g f) = Some f.
+Proof. exact parse_render. Qed.
+Print Assumptions C17_text_round_trip.
+
+(* ... hence reading the text gives what the theorems above say about the file *)
+Theorem C17_text_then_read : forall pid_of fuel cart0 g f, f <> [] -> Forall line_wf f ->
+  match parse_text (render_text g f) with Some f' => read_ampgen pid_of fuel cart0 f' | None => RErr "UnexpectedInput" end
+  = read_ampgen pid_of fuel cart0 f.
+Proof. intros. rewrite parse_render by assumption. reflexivity. Qed.
+Print Assumptions C17_text_then_read.
+
+(* names: the grammar's LABEL words never contain a separator *)
+Theorem C17_labels_are_words : forall s, is_label s = true -> plain s = true /\ s <> "".
+Proof. exact label_plain. Qed.
+Print Assumptions C17_labels_are_words.
+
+(* non-vacuity: a file with nested, tagged decays, a constant, a variable and the option is well-formed, and its text
+   (as the model reads it) is the file *)
+Definition c17_text_example : list oline :=
+  [OEvent ["D0"; "K-"; "pi+"; "pi+"; "pi-"];
+   OCplx (DNode "D0" None None [DNode "K*(892)bar0" None None [DNode "K-" None None []; DNode "pi+" None None []];
+                                DNode "rho(770)0" (Some "D") (Some "GSpline.EFF") [DNode "pi+" None None []; DNode "pi-" None None []]])
+         (mk_fc "2" "0.5" "0") (mk_fc "0" "1.2" "0.1");
+   OConst "a(1)(1260)+::Spline::Min" "0.18412"; OVar "D0_radius" "2" "3.7559" "0"; OFCS "1"].
+Example C17_text_example_wf : Forall line_wf c17_text_example /\ parse_text (render_text 2 c17_text_example) = Some c17_text_example.
+Proof.
+  split; [|vm_compute; reflexivity].
+  repeat (apply Forall_cons; [vm_compute; repeat split; try reflexivity; try discriminate; try lia; repeat constructor; try reflexivity; try discriminate|]).
+  apply Forall_nil.
+Qed.
